@@ -7,15 +7,18 @@ import (
 	"crypto/elliptic"
 	"crypto/rand"
 	"crypto/sha1"
+	"crypto/sha256"
 	"crypto/x509"
 	"crypto/x509/pkix"
 	"fmt"
+	"sort"
 	"sync/atomic"
 	"testing"
 	"testing/synctest"
 	"time"
 
 	"github.com/scionproto/scion/pkg/addr"
+	"github.com/scionproto/scion/pkg/scrypto/cms/oid"
 	"github.com/scionproto/scion/pkg/scrypto/cms/protocol"
 	"github.com/scionproto/scion/pkg/scrypto/cppki"
 	"github.com/scionproto/scion/pkg/scrypto/signed"
@@ -62,7 +65,7 @@ func TestC37(t *testing.T) {
 	r := mc.NewRun(t, "C37", mc.Exploration)
 	r.Rule = "part 1: product of signer-info variants (9) x certificate-set variants (6) x client chains (10, incl. chains whose CA certificate carries the AS's own ISD-AS) x TRC timelines (8) x " +
 		"signed-payload variants (3) x CSR variants (8); quick = all points with <= 3 deviating dimensions, thorough = the full " +
-		"product; one case = one VerifyCMSSignedRenewalRequest call; part 2: CreateChain for every CA window x validity x signing " +
+		"product; one case = one VerifyCMSSignedRenewalRequest call; part 1b: AS-key-signed message-digest attributes of every length 0..33 (prefixes of the true digest) and wrong digests of the right length x transmitted CSR {same, another}; part 2: CreateChain for every CA window x validity x signing " +
 		"time x curve x subject x ForceECDSAWithSHA512; non-trivial = every case (all inputs pairwise different)"
 	var budget atomic.Bool
 	done := make(chan struct{})
@@ -441,6 +444,82 @@ func c37Run(r *mc.Run, budget *atomic.Bool) {
 	r.Sample(map[string]any{"part1_dimensions": map[string]int{"timelines": len(tls), "chains": len(chains), "signer_infos": len(siVars),
 		"certificate_sets": len(certVars), "payloads": len(pldVars), "csrs": len(csrs)}})
 
+	// ---- part 1b: the message-digest attribute ----
+	// The CMS signature covers the signed attributes only; the message-digest attribute is what binds them to the CSR.
+	// For every context in which the good request is accepted: digest attributes of EVERY length 0..len(digest)+1 that
+	// are a prefix of the true digest (or the true digest plus a byte), wrong digests of the right length, each
+	// correctly signed by the AS key, with the transmitted CSR being the one the digest was taken from or another one.
+	{
+		trueDigest := sha256.Sum256(goodCSR)
+		type dg struct {
+			what string
+			attr []byte
+			good bool
+		}
+		var dgs []dg
+		for l := 0; l <= len(trueDigest); l++ {
+			dgs = append(dgs, dg{fmt.Sprintf("first %d byte(s) of the CSR digest", l), append([]byte{}, trueDigest[:l]...), l == len(trueDigest)})
+		}
+		dgs = append(dgs, dg{"CSR digest plus one byte", append(append([]byte{}, trueDigest[:]...), 0), false})
+		for _, off := range []int{0, 15, 31} {
+			w := append([]byte{}, trueDigest[:]...)
+			w[off] ^= 0x01
+			dgs = append(dgs, dg{fmt.Sprintf("CSR digest with byte %d altered", off), w, false})
+		}
+		dgs = append(dgs, dg{"all-zero digest of the right length", make([]byte, len(trueDigest)), false})
+		od := sha256.Sum256(otherCSR)
+		dgs = append(dgs, dg{"digest of another CSR", od[:], false})
+		n1b := 0
+		for _, ctxc := range []struct{ tl, ch int }{{0, 0}, {1, 1}} {
+			tl, ch := tls[ctxc.tl], chains[ctxc.ch]
+			for _, d := range dgs {
+				for _, transmitted := range []struct {
+					what string
+					raw  []byte
+				}{{"the CSR the digest was taken from", goodCSR}, {"another valid CSR of the same subject", otherCSR}} {
+					si, err := c37SignerInfoWithDigest(d.attr, ch.as.X, asKey)
+					if err != nil {
+						r.HarnessError("signer info: %v", err)
+						continue
+					}
+					eci, _ := protocol.NewDataEncapsulatedContentInfo(transmitted.raw)
+					sd := &protocol.SignedData{Version: 1, EncapContentInfo: eci, SignerInfos: []protocol.SignerInfo{si}, DigestAlgorithms: []pkix.AlgorithmIdentifier{}}
+					sd.AddDigestAlgorithm(si.DigestAlgorithm)
+					sd.AddCertificate(ch.as.X)
+					sd.AddCertificate(ch.ca.X)
+					der, err := sd.ContentInfoDER()
+					if err != nil {
+						r.HarnessError("encoding: %v", err)
+						continue
+					}
+					good := d.good && bytes.Equal(transmitted.raw, goodCSR)
+					if bytes.Equal(d.attr, od[:]) && bytes.Equal(transmitted.raw, otherCSR) {
+						good = true // digest of the other CSR with the other CSR transmitted: a consistent request
+					}
+					name := fmt.Sprintf("timeline=%s chain=%s message-digest attribute = %s (%x), transmitted: %s", tl.name, ch.name, d.what, d.attr, transmitted.what)
+					var verr error
+					if p := mc.Safely(func() { _, verr = renewal.RequestVerifier{TRCFetcher: tl.db}.VerifyCMSSignedRenewalRequest(ctx, der) }); p != nil {
+						r.Violation("panic-in-verify-request", map[string]any{"case": name, "panic": fmt.Sprint(p)})
+						continue
+					}
+					r.CaseBulk(1, 1)
+					n1b++
+					switch {
+					case good && verr != nil:
+						r.Violation("legitimate-request-refused", map[string]any{"case": name, "error": verr.Error()})
+					case !good && verr == nil:
+						r.Violation("illegitimate-request-accepted:payload-not-covered", map[string]any{"case": name})
+					case good:
+						r.Outcome("accepted:digest-attribute-control")
+					default:
+						r.Outcome("rejected:digest-attribute")
+					}
+				}
+			}
+		}
+		r.Extra["part1b_digest_attribute_cases"] = n1b
+	}
+
 	// the all-good request built by the real client code must be accepted wherever the reference accepts
 	for _, tl := range tls {
 		for _, ch := range chains {
@@ -586,6 +665,40 @@ func c37Run(r *mc.Run, budget *atomic.Bool) {
 		"points with several deviating dimensions only demand refusal (implication oracle)",
 		"CreateChain must succeed whenever [signing time, signing time + validity] lies within the CA certificate's validity, and fail otherwise",
 	}
+}
+
+// c37SignerInfoWithDigest builds a signer info (RFC 5652 5.4) whose message-digest attribute is the given byte string
+// and whose signature (ECDSA/SHA-256 by key) is a correct signature over the signed attributes.
+func c37SignerInfoWithDigest(digest []byte, sid *x509.Certificate, key *ecdsa.PrivateKey) (protocol.SignerInfo, error) {
+	id, err := protocol.NewIssuerAndSerialNumber(sid)
+	if err != nil {
+		return protocol.SignerInfo{}, err
+	}
+	si := protocol.SignerInfo{Version: 1, SID: id,
+		DigestAlgorithm:    pkix.AlgorithmIdentifier{Algorithm: oid.DigestAlgorithmSHA256},
+		SignatureAlgorithm: pkix.AlgorithmIdentifier{Algorithm: oid.SignatureAlgorithmECDSAWithSHA256}}
+	st, err := protocol.NewAttribute(oid.AttributeSigningTime, time.Now().UTC())
+	if err != nil {
+		return si, err
+	}
+	md, err := protocol.NewAttribute(oid.AttributeMessageDigest, digest)
+	if err != nil {
+		return si, err
+	}
+	ct, err := protocol.NewAttribute(oid.AttributeContentType, oid.ContentTypeData)
+	if err != nil {
+		return si, err
+	}
+	attrs := []protocol.Attribute{st, md, ct}
+	sort.Slice(attrs, func(i, j int) bool { return bytes.Compare(attrs[i].RawValue.FullBytes, attrs[j].RawValue.FullBytes) < 0 })
+	si.SignedAttrs = attrs
+	sm, err := si.SignedAttrs.MarshaledForSigning()
+	if err != nil {
+		return si, err
+	}
+	h := sha256.Sum256(sm)
+	si.Signature, err = ecdsa.SignASN1(rand.Reader, key, h[:])
+	return si, err
 }
 
 func c37Dur(d time.Duration) *time.Duration { return &d }
